@@ -3,6 +3,7 @@ package main
 import (
 	"fmt"
 	"go/ast"
+	"strings"
 	"go/token"
 	"go/types"
 
@@ -363,12 +364,24 @@ func (tr *Tr) havocLoop(fr *Frame, li *loopInfo) {
 	allocs := false
 	events := false
 	all := false
+	newOnly := map[string]bool{} // keys written only in regions allocated during the loop
 	addRoot := func(v ssa.Value, keys []string) {
 		root := rootOf(v)
 		if in, ok := root.(ssa.Instruction); ok && li.blocks[in.Block()] {
 			switch root.(type) {
 			case *ssa.Alloc, *ssa.MakeSlice, *ssa.MakeMap:
-				return // fresh each iteration
+				// a region allocated in this iteration; earlier iterations' regions may be written through it only
+				// by the iteration that allocated them
+				for _, k := range keys {
+					newOnly[k] = true
+				}
+				return
+			}
+			if tr.freshResult(root) {
+				for _, k := range keys {
+					newOnly[k] = true
+				}
+				return
 			}
 			for _, k := range keys {
 				fullKeys[k] = true
@@ -446,6 +459,19 @@ func (tr *Tr) havocLoop(fr *Frame, li *loopInfo) {
 	for k := range fullKeys {
 		tr.set(fr.st, heapComp(k), f.Fresh("Hloop"+k, tr.compSort(heapComp(k))))
 	}
+	preAlloc := tr.get(fr.st, "alloc")
+	for _, k := range heapKeys {
+		if !newOnly[k] || fullKeys[k] {
+			continue
+		}
+		// regions that existed before the loop are untouched by stores into loop-allocated objects
+		old := tr.get(fr.st, heapComp(k))
+		nh := f.Fresh("Hnew"+k, old.S)
+		r := f.BoundVar("r", S64)
+		tr.assume(f.Forall([]*Term{r}, f.Implies(f.ULt(r, preAlloc), f.Eq(f.Select(nh, r), f.Select(old, r))), []*Term{f.Select(nh, r)}),
+			"loop stores only into objects allocated inside the loop: earlier regions unchanged")
+		tr.set(fr.st, heapComp(k), nh)
+	}
 	for _, r := range regs {
 		if fullKeys[r.key] {
 			continue
@@ -458,6 +484,34 @@ func (tr *Tr) havocLoop(fr *Frame, li *loopInfo) {
 	if events {
 		tr.havocLog(fr.st)
 	}
+}
+
+// freshResult: v is (an extract of) a call to a function whose contract promises a fresh result.
+func (tr *Tr) freshResult(v ssa.Value) bool {
+	idx := 0
+	if ex, ok := v.(*ssa.Extract); ok {
+		idx = ex.Index
+		v = ex.Tuple
+	}
+	call, ok := v.(*ssa.Call)
+	if !ok {
+		return false
+	}
+	sf := call.Common().StaticCallee()
+	if sf == nil {
+		return false
+	}
+	ct := tr.P.contracts[sf]
+	if ct == nil {
+		return false
+	}
+	want := fmt.Sprintf("fresh(ret%d)", idx)
+	for _, e := range ct.Ensures {
+		if strings.Contains(strings.ReplaceAll(e.Src, " ", ""), want) {
+			return true
+		}
+	}
+	return false
 }
 
 func (tr *Tr) bumpAlloc(st *State) {
@@ -484,6 +538,13 @@ func rootOfD(v ssa.Value, depth int) ssa.Value {
 			v = x.X
 		case *ssa.ChangeInterface:
 			v = x.X
+		case *ssa.Call:
+			// append writes into its first argument's region (or into a fresh one)
+			if b, ok := x.Call.Value.(*ssa.Builtin); ok && b.Name() == "append" {
+				v = x.Call.Args[0]
+				continue
+			}
+			return v
 		case *ssa.Phi:
 			// all incoming values share one root (e.g. chunk := b / chunk = b[:n])
 			if depth > 4 {
